@@ -131,7 +131,7 @@ def _gen_rec(rng):
     n = rng.choice(NAMES)
     if t == "CNAME" and n == "@":
         n = "a"
-    return (n, t, rng.choice([60, 300, 300, 3600]), rng.choice(Z.RDATA[t]))
+    return (n, t, rng.choice([60, 300, 300, 3600, 2**31 - 1]), rng.choice(Z.RDATA[t]))
 
 
 def _normalise(recs):
@@ -333,7 +333,7 @@ def make_messages(case):
             stream[pos] = (r[0], "TXT" if r[1] == "A" else "A", r[2], '"t1"' if r[1] == "A" else "10.0.0.9")
             info["fired"] = "type"
         elif k == "ttl" and r[1] != "SOA":
-            stream[pos] = (r[0], r[1], r[2] + 7, r[3])
+            stream[pos] = (r[0], r[1], r[2] + 7 if r[2] + 7 < 2**31 else r[2] - 7, r[3])
             info["fired"] = "ttl"
     elif k == "truncate" and len(stream) > 1:
         stream = stream[: max(1, pos)]
